@@ -131,7 +131,8 @@ Definition env_set_inf (b : bool) (e : benv) : benv := mkBenv b (e_qempty e) (e_
 
 (** run on through statements that cannot block; stops at the first await (or at a condition
     whose value the step does not know).  try/finally: no exception is modelled here (what the
-    session does when an await raises is Life/FailStart.v), so it is body-then-finally. *)
+    session does when an await, an assert or the body at the yield RAISES, or the task is cancelled
+    at an await -- try/finally with its real meaning -- is Relay/TieExn.v), so here it is body-then-finally. *)
 Fixpoint settle (fuel : nat) (e : benv) (k : cont) (acc : list eff) : cont * list eff :=
   match fuel with
   | O => (k, acc)
@@ -156,6 +157,8 @@ Fixpoint settle (fuel : nat) (e : benv) (k : cont) (acc : list eff) : cont * lis
         end
     | KS SBreak :: r => settle f e (break_out r) acc
     | KS (SSetInFinally v) :: r => settle f (env_set_inf v e) r (acc ++ [ESetInFinally v])
+    | KS SAssert :: r => settle f e r acc          (* passes (that it may raise: Relay/TieExn.v) *)
+    | KS SYield :: r => settle f e r acc           (* the body of `async with hook.awith.run()` (Callback._run): does not block *)
     | KS (STimerNew _) :: r => settle f e r acc
     | KS STimerRestart :: r => settle f e r acc
     | KS SNewQueueOut :: r => settle f e r acc
@@ -180,8 +183,8 @@ Fixpoint subst_yield (g body : stmt) : stmt :=
   end.
 
 (** `async with relay_events(..): b` = relay_events with b at its yield; the calls of
-    _on_start_run/_on_end_run are inlined; the yield of RunSession.run itself is the body of
-    `async with self._hook.awith.run(..)` in Callback._run (nothing the relay looks at) *)
+    _on_start_run/_on_end_run are inlined; the yield of RunSession.run itself stays: it is where the
+    body of `async with self._hook.awith.run(..)` in Callback._run runs (`started.set()`: no await) *)
 Fixpoint inline (s : stmt) : stmt :=
   match s with
   | SSeq a b => SSeq (inline a) (inline b)
@@ -191,7 +194,6 @@ Fixpoint inline (s : stmt) : stmt :=
   | SWithRelay b => subst_yield relay_prog (inline b)
   | SCallStartRun => on_start_run_prog
   | SCallEndRun => on_end_run_prog
-  | SYield => SSkip
   | x => x
   end.
 
@@ -391,6 +393,7 @@ Fixpoint child_exit_ready (p : list cstmt) (script_done : bool) : bool :=
   match p with
   | [] => true
   | CRunScript :: r => script_done && child_exit_ready r script_done
+  | CAssert :: r => child_exit_ready r script_done
   | CWaitQueueEmpty _ :: r => child_exit_ready r script_done
   | CReturn :: _ => true
   end.
@@ -737,6 +740,7 @@ Fixpoint child_order (st : nat) (p : list cstmt) : bool :=
   | CRunScript :: r => match st with O => child_order 1 r | _ => false end
   | CWaitQueueEmpty _ :: r => match st with 1%nat => child_order 2 r | _ => false end
   | CReturn :: _ => match st with 2%nat => true | _ => false end
+  | CAssert :: r => child_order st r
   end.
 
 Lemma child_flush_order : child_order 0 child_main_prog = true.
